@@ -636,6 +636,7 @@ func (g *Gen) allocBound(x *ssa.MakeSlice, st *State, r string, cp string) {
 	sz := g.prog.sizes.Sizeof(el)
 	g.oblige(g.oblName("allocbound"), "allocbound", []string{"SAFETY", "ALLOC"}, r, fmt.Sprintf("(<= (* %d %s) %s)", sz, cp, b.T),
 		"allocation is bounded by the declared budget (bytes remaining in the input)", x.Pos())
+	g.obls[len(g.obls)-1].CexExtra = fmt.Sprintf("(assert (>= (* %d %s) 16777216))", sz, cp)
 }
 
 func (g *Gen) makeMap(x *ssa.MakeMap, st *State) {
